@@ -96,8 +96,8 @@ def run(ctx):
     # ---- R-C13.2 check under the lock, before seqno and append; true edge returns without appending
     for fn in entries:
         pb = R.call_blocks(fn, (R.IS_POISONED,))
-        jb = R.call_blocks(fn, (R.GET_WRITER,))
-        nb = R.call_blocks(fn, (R.SEQNO_NEXT,))
+        jb = R.j_acquire_blocks(ctx, fn)
+        nb = R.seqno_draw_blocks(ctx, fn)
         ab = R.call_blocks(fn, R.APPEND)
         if not pb:
             ctx.ob("R-C13.2", fn, "poison-check-present", False, "write entry point never calls PoisonSignal::is_poisoned")
